@@ -68,8 +68,22 @@ def c12_scripts(seed, n):
             kind = r.below(3)
             if kind == 0:
                 ls = gen.gen_term_case(r, 0, wild=r.chance(1, 4))[1:-1]
-            elif kind == 1:
+            elif kind == 1 and r.chance(1, 2):
                 ls = ["T 0 new 0", "T 0 arm"] + ["T 0 recv " + gen.hexs(gen.wild_bytes(r, r.rng(0, 6))) for _ in range(r.rng(1, 6))]
+            elif kind == 1:
+                # key sequences with parameters, cut into small deliveries: state
+                # held between deliveries while other objects run
+                bs = []
+                for _ in range(r.rng(1, 3)):
+                    bs += [27, 91] + [ord(c) for c in "%d;%d" % (r.pick(gen.KEYPAD), r.rng(2, 8))] + [126]
+                    if r.chance(1, 2):
+                        bs += gen.frag_bytes(r)
+                ls = ["T 0 new 0", "T 0 arm"]
+                i = 0
+                while i < len(bs):
+                    step = r.rng(1, 3)
+                    ls.append("T 0 recv " + gen.hexs(bs[i:i + step]))
+                    i += step
             else:
                 ls = gen.gen_screen_case(r, 0)[1:-1]
                 # screens/canvases of this history get the same id as its terminal
@@ -114,8 +128,11 @@ def run_c12(pid, tier, seed, ctx, P):
     """returns (fails, stats) ; fails: list of (why, script lines)"""
     fails = []
     stats = {"groups": 0, "objects": 0, "thread_cases": 0, "tsan": False}
+    escalate = getattr(ctx, "escalate", False)
     n = 150 if tier == "quick" else 1500
     seeds = [seed] if tier == "quick" else [seed + i for i in range(3)]
+    if escalate and tier == "quick":
+        n, seeds = 400, [seed, seed + 101]
     for sd in seeds:
         solo, inter = c12_scripts(sd, n)
         rs = vc.run_script(ctx, "multi-solo-%d" % sd, solo, want_oracle=False, want_model=True)
@@ -136,7 +153,9 @@ def run_c12(pid, tier, seed, ctx, P):
                     kind, oid, case, k, blocks[k] if k < len(blocks) else None, (want or [None])[k] if want and k < len(want) else None), icases.get(case, [])))
                 break
         # the same solo cases, each on its own thread, all concurrently
-        for kind in (["asan"] if tier == "quick" else ["asan", "tsan"]):
+        for kind in (["asan"] if tier == "quick" and not escalate else ["asan", "tsan"]):
+            if fails:
+                break
             if kind not in ctx.impl:
                 exe, secs, err = vbuild.build_impl(kind)
                 if err:
